@@ -677,6 +677,12 @@ class EmptyStreamReader(StreamReader):  # lgtm [py/missing-call-to-init]
 
         return (b"", True)
 
+    def iter_chunks(self) -> ChunkTupleAsyncStreamIterator:
+        # Every empty body shares the EMPTY_PAYLOAD singleton, and with it the
+        # readchunk() state above: iterating the singleton a second time would
+        # yield (b"", True) forever. Iterate a fresh instance instead.
+        return ChunkTupleAsyncStreamIterator(EmptyStreamReader())
+
     async def readexactly(self, n: int) -> bytes:
         raise asyncio.IncompleteReadError(b"", n)
 
